@@ -477,6 +477,51 @@ def _only_measured(fn, l, depth=0, seen=None):
     return True
 
 
+def map_bytes_via_view(ctx, rule='C03.map-bytes-via-view'):
+    """the mapped bytes are looked at page by page, through the page view of the transaction that pinned them; only header selection and open look at the map directly (the two
+    header pages are the only pages rewritten in place).  A bulk copy of "the first num_pages pages of my map" carries whatever headers are current when it runs, not the
+    snapshot of the transaction that makes it"""
+    res = []
+    F = ctx.facts
+    try:
+        hdr, dbopen, mv = ctx.need('DBInner::meta', 'DBInner::open', 'map-view')
+    except AnchorError as e:
+        return [unresolved(rule, str(e))]
+    allowed = {hdr, dbopen, mv} | set(getattr(ctx.A, 'hdr_helpers', ()))
+    for root in (hdr, dbopen, mv):
+        allowed |= {g for g in F.reachable_fns([root]) if g is not root and _only_via(F, g, root)}
+    # (judged on what a transaction's handles can reach: a DB-level diagnostic that dumps raw headers is nobody's snapshot)
+    import c06
+    on_path = set()
+    for e0 in F.fns:
+        if e0.kind != 'Closure' and e0.self_adt and last_seg(e0.self_adt) in c06.CARRIERS:
+            on_path |= set(F.reachable_fns([e0]))
+    n = 0
+    for fn in sorted(F.fns, key=lambda g: g.path):
+        owner = (fn.owner or fn) if fn.kind == 'Closure' else fn
+        if owner not in on_path and owner not in allowed:
+            continue
+        for bb in sorted(fn.reachable_blocks()):
+            t = fn.term(bb)
+            c = callee_of(t) if t['k'] == 'call' else None
+            if not c or c['path'] not in ('std::ops::Deref::deref', 'std::ops::Index::index', 'std::convert::AsRef::as_ref', 'std::borrow::Borrow::borrow'):
+                continue
+            if (c.get('self_ty') or '') != 'memmap2::Mmap':
+                continue
+            n += 1
+            if owner in allowed or _only_measured(fn, t['dest']['l']):
+                continue
+            res.append(bad(rule, '%s | reads the mapped bytes directly' % fn.qual,
+                           '%s takes the bytes of the map at %s instead of going through the page view: header pages are rewritten in place by every commit, so what it reads there '
+                           'belongs to whichever commit came last, not to the snapshot of the transaction it runs in' % (fn.qual, fn.loc(bb)), where=fn.loc(bb)))
+    f = floor(rule, 'places where the map is dereferenced to bytes', n, 3)
+    if f:
+        res.append(f)
+    if not any(not r.ok for r in res):
+        res.append(ok(rule, 'the mapped bytes are dereferenced at %d sites: the page view, header selection, open, or only to be measured' % n, sites=n))
+    return res
+
+
 def private_map(ctx, rule='C03.private-map'):
     res = []
     F = ctx.facts
@@ -675,6 +720,7 @@ def run(ctx, tier):
     results += sorted_registry(ctx)
     results += deregister_only_own(ctx)
     results += private_map(ctx)
+    results += map_bytes_via_view(ctx)
     results += snapshot_fixed(ctx)
     results += snapshot_private(ctx)
     import c04
@@ -696,6 +742,8 @@ def run(ctx, tier):
     # list -- pages of the snapshot those readers are looking at
     import commit
     results += commit.obligations(ctx)['O5']
+    # a writer works from the free list and the map as the previous commit left them: both are copied behind the writer lock
+    results += c09.writer_reads_after_lock(ctx, rule='C03.writer-snapshot')
     return dict(
         results=results, stats=dict(ctx.stats),
         explanation=(
